@@ -218,8 +218,8 @@ Section Wf.
   Lemma wf_binop op s e a b : pre s e -> wf (binop_value op s e a b).
   Proof.
     intros Hp. unfold binop_value; cbv zeta. destruct op; repeat wstep.
-    inv_alloc.
-    repeat match goal with |- context [match ?y with _ => _ end] => destruct y end; apply wf_ok; pre_tac.
+    all: try (inv_alloc;
+              repeat match goal with |- context [match ?y with _ => _ end] => destruct y end; apply wf_ok; pre_tac).
   Qed.
 
   Lemma wf_call_body fi params body up args s :
